@@ -2,6 +2,8 @@ import SemVerif.Props.C06
 import SemVerif.Props.C18
 import SemVerif.Lemmas.ExtEvents
 import SemVerif.Lemmas.VisitLock
+import SemVerif.Lemmas.VisitSim
+import SemVerif.Props.C04
 /-!
 # Property C19 — extension expressions are opaque leaves evaluated once, in place
 
@@ -83,6 +85,41 @@ theorem C19_visited (p : Program) (h : acceptedWF p (run p) = true) : P_C19_visi
     rw [← evTags_abstractStack, ← heq, evTags_specStmts]
   rw [this, vl_fn p.rglobals f (hchk f (List.of_mem_zip hfb).1)]
   simp
+
+/-- **C19, the evaluated-leaves predicate for every program** — accepted or rejected: when the
+analysis does not hit the documented panic, the `ExtendedExpression` instructions of every function
+stack are exactly the leaves `Spec/ExtVisit.lean` lists (operands to the right of a failing operand
+are skipped, everything else is evaluated once, in order) -/
+theorem C19_visited_all (p : Program) : P_C19_visited p (run p) = [] := by
+  unfold P_C19_visited
+  split
+  · rfl
+  · rename_i hpan
+    have hnp : (run p).panic = none := by
+      cases h : (run p).panic with
+      | none => rfl
+      | some x => rw [h] at hpan; simp at hpan
+    have hg := globRel_of_rel (rel_run p)
+    have hok := anaOK_of_no_panic p hnp
+    unfold AnaOKB at hok
+    rw [List.all_eq_true] at hok
+    rw [List.flatMap_eq_nil_iff]
+    rintro ⟨⟨f, b⟩, i⟩ hx
+    have hfb : (f, b) ∈ p.fnDecls.zip (run p).roots := List.fst_mem_of_mem_zipIdx hx
+    have hf : f ∈ p.fnDecls := (List.of_mem_zip hfb).1
+    have hb : b = (functionBody (pass2 p (pass1 p GState.init)).globals f).root := by
+      unfold run at hfb
+      dsimp only at hfb
+      rw [fns_eq_fnDecls] at hfb
+      exact zip_roots p _ _ f b hfb
+    subst hb
+    dsimp only
+    rw [visit_function hg f (hok f hf)]
+    simp [Program.rglobals]
+
+/-- the whole of what the check evaluates for C19, as one statement -/
+theorem C19_all (p : Program) : P_C19 p (run p) ++ P_C19_visited p (run p) = [] := by
+  rw [C19, C19_visited_all]; rfl
 
 /-- a function with extension leaves in a chain, as a call argument and in a nested block -/
 def exampleExt : Program :=
